@@ -517,7 +517,7 @@ def t2_cases(ctx):
     for ti, tab in enumerate(tables):
         trees = list(small)
         if ctx.quick:
-            trees += [random_tree(rng, rng.choice([4, 4, 5, 6, 6]), lits=(0, 1) if ti % 2 else (0,)) for _ in range(110)]
+            trees += [random_tree(rng, rng.choice([4, 4, 5, 6, 6]), lits=(0, 1) if ti % 2 else (0,)) for _ in range(70)]
         else:
             trees = list(mid) + [random_tree(rng, 6) for _ in range(1500)]
             if ti < len(FIXED_TABLES):
@@ -1013,7 +1013,7 @@ def _run_case_safe(case):
         return {"status": "harness-error", "program": case["program"], "why": traceback.format_exc()[-600:], "stages": 0}
 
 
-_METHOD_SENSITIVE = {"sort", "merge", "groupby", "dropdup", "value_counts", "extra"}
+_KNOWN_DIVISIONS_ONLY = {"x:add_repartitioned_proj", "x:add_repartitioned_col"}  # alignment needs known divisions
 
 
 def support_cases(ctx, broken):
@@ -1029,23 +1029,22 @@ def support_cases(ctx, broken):
         for n in space:
             if is_valid(names[n]):
                 sel.append(n)
-            if len(sel) >= 150:
+            if len(sel) >= (300 if broken else 150):
                 break
         for i, n in enumerate(must):
             # both methods and a known-/unknown-divisions layout alternate over the must-run list
-            cases.append({"program": n, "layout": (0, 3, 1, 4)[i % 4], "method": METHODS[i % 2]})
+            lay = (0, 1, 2)[i % 3] if n in _KNOWN_DIVISIONS_ONLY else (0, 3, 1, 4)[i % 4]
+            cases.append({"program": n, "layout": lay, "method": METHODS[i % 2]})
         for i, n in enumerate(sorted(sel)):
             cases.append({"program": n, "layout": i % nl, "method": METHODS[(i // nl) % 2]})
     else:
-        # all programs x all layouts; both shuffle methods where the plan consults the configured default
-        # (sort / set_index / merge / groupby / drop_duplicates / value_counts / nunique), alternating otherwise
+        # all programs x all layouts, the shuffle method alternating so that every program runs under both
+        # methods (3 + 2 layouts); the must-run list under all 10 combinations
         space = [p.name for p in programs.valid_programs(2, "any")]
         mset = set(must)
         for i, n in enumerate(must + [n for n in space if n not in mset]):
-            fams = set(names[n].families)
-            both = n in mset or bool(fams & _METHOD_SENSITIVE) or n.endswith("nunique0")
             for layout in range(nl):
-                for m in (METHODS if both else [METHODS[(i + layout) % 2]]):
+                for m in (METHODS if n in mset else [METHODS[(i + layout) % 2]]):
                     cases.append({"program": n, "layout": layout, "method": m})
     return cases
 
